@@ -24,6 +24,16 @@ func VerifC18(program int, files int, mode int, twin int) {
 	vfsWrite("f1.txt", content)
 	vfsWrite("f2.txt", "ba")
 	vfsWrite("prog.vore", c18Find)
+	// the named JSON files may exist already, left by an earlier run with more matches
+	stale := vBool("stale output files")
+	staleTxt := ""
+	if stale {
+		for i := 0; i < 150; i++ {
+			staleTxt += "[{\"stale\":true},0]  \n"
+		}
+		vfsWrite("out.json", staleTxt)
+		vfsWrite("outf.json", staleTxt)
+	}
 	useJSON := vBool("-json")
 	useFJSON := vBool("-formatted-json")
 	noOutput := vBool("-no-output")
@@ -113,6 +123,9 @@ func VerifC18(program int, files int, mode int, twin int) {
 	}
 	vNote("source", "vore "+desc)
 	vNote("content", content)
+	if stale {
+		vNote("stale", "out.json and outf.json exist before the run (3000 bytes)")
+	}
 
 	// what the library returns for the same program and files (mode NOTHING: matches do not depend on the mode)
 	var expected engine.Matches
@@ -138,8 +151,13 @@ func VerifC18(program int, files int, mode int, twin int) {
 	f1, _ := vfsRead("f1.txt")
 	f2, _ := vfsRead("f2.txt")
 	_, vored1 := vfsRead("f1.txt.vored")
-	_, outJ := vfsRead("out.json")
-	_, outFJ := vfsRead("outf.json")
+	outJtxt, outJ := vfsRead("out.json")
+	outFJtxt, outFJ := vfsRead("outf.json")
+	if stale {
+		// an invalid invocation must leave the existing files as they were
+		outJ = !outJ || outJtxt != staleTxt
+		outFJ = !outFJ || outFJtxt != staleTxt
+	}
 	if !valid {
 		if exit == 0 {
 			vFail("an invalid invocation exits with status 0")
